@@ -130,7 +130,7 @@ def broken_string_token_handler(lexer, token):
     # probe for the next values (which no valid rules will match)
     position = lexer.lexer.lexpos + len(token.value)
     failure = lexer.lexer.lexdata[position:position + 2]
-    if failure and failure[0] == '\\':
+    if failure[:1] == '\\' and failure[1:2] in ('x', 'u'):
         type_ = {'x': 'hexadecimal', 'u': 'unicode'}[failure[1]]
         seq = re.match(
             r'\\[xu][0-9-a-f-A-F]*', lexer.lexer.lexdata[position:]
